@@ -124,6 +124,14 @@ func runC15(r *mc.Run) {
 		res  uintptr
 	}{{"ok", nil, 0}, {"err", errors.New("EBUSY"), 0}, {"r1", nil, 1}, {"r9", nil, 9}}
 	statuses := []uint64{0, 0xffffffffffffffff, 0x8000000000000000, 0x8000000000000001, 1, 1 << 62}
+	if r.Thorough() {
+		for bit := 0; bit < 64; bit++ {
+			if v := uint64(1) << uint(bit); v != 1 && v != 1<<62 && v != 1<<63 {
+				statuses = append(statuses, v)
+			}
+		}
+		statuses = append(statuses, 0x8000000000000002, 0x7fffffffffffffff, 0xfffffffffffffffe)
+	}
 	outLens := []uint32{uint32(len(quote)), 0, 1, uint32(bufSize), uint32(bufSize + 1), 0xffffffff, uint32(len(quote) - 1), 1024}
 	var repA, repB [labi.TdReportSize]byte
 	copy(repA[:], world.Fill("td-report-a", labi.TdReportSize))
